@@ -83,13 +83,39 @@ impl PartialOrd for LocalSegment {
     }
 }
 
+impl LocalSegment {
+    /// Digits of a numeric segment without leading zeros. Numbers above u32 are kept as
+    /// all-digit text by the parser; they are numeric segments all the same.
+    fn numeric_digits(&self) -> Option<String> {
+        let digits = match self {
+            LocalSegment::UInt(n) => n.to_string(),
+            LocalSegment::Str(s) if !s.is_empty() && s.chars().all(|c| c.is_ascii_digit()) => {
+                s.clone()
+            }
+            LocalSegment::Str(_) => return None,
+        };
+        let stripped = digits.trim_start_matches('0');
+        Some(if stripped.is_empty() {
+            "0".to_string()
+        } else {
+            stripped.to_string()
+        })
+    }
+}
+
 impl Ord for LocalSegment {
     fn cmp(&self, other: &Self) -> Ordering {
-        match (self, other) {
-            (LocalSegment::UInt(a), LocalSegment::UInt(b)) => a.cmp(b),
-            (LocalSegment::Str(a), LocalSegment::Str(b)) => a.to_lowercase().cmp(&b.to_lowercase()),
-            (LocalSegment::UInt(_), LocalSegment::Str(_)) => Ordering::Less,
-            (LocalSegment::Str(_), LocalSegment::UInt(_)) => Ordering::Greater,
+        match (self.numeric_digits(), other.numeric_digits()) {
+            // by value: fewer digits is smaller, equal length compares digit by digit
+            (Some(a), Some(b)) => a.len().cmp(&b.len()).then_with(|| a.cmp(&b)),
+            (Some(_), None) => Ordering::Less,
+            (None, Some(_)) => Ordering::Greater,
+            (None, None) => match (self, other) {
+                (LocalSegment::Str(a), LocalSegment::Str(b)) => {
+                    a.to_lowercase().cmp(&b.to_lowercase())
+                }
+                _ => Ordering::Equal,
+            },
         }
     }
 }
